@@ -90,6 +90,20 @@ SIMPLE_SHEETS = [
     '<xsl:stylesheet version="1.0" xmlns:xsl="%s"><xsl:output method="text" encoding="ISO-8859-1"/><xsl:strip-space elements="*"/><xsl:variable name="v"><a><b/></a></xsl:variable>'
     '<xsl:template match="/"><xsl:value-of select="substring(string(.), 2, 5)"/><xsl:number value="1234567" grouping-separator="," grouping-size="3"/>'
     '<xsl:number value="17" format="I"/><xsl:copy-of select="$v"/><xsl:message>m</xsl:message></xsl:template></xsl:stylesheet>' % XSL,
+    # MANY of everything that is kept in a table or a cache of bounded size: 24 named decimal formats (all used, twice), keys, attribute
+    # sets, modes, named templates, global variables, namespaces
+    ('<xsl:stylesheet version="1.0" xmlns:xsl="%s" ' % XSL + ' '.join('xmlns:n%d="urn:n%d"' % (i, i) for i in range(24)) + '><xsl:output method="xml"/>' +
+     ''.join('<xsl:decimal-format name="d%d" decimal-separator="%s" grouping-separator="%s"/>' % (i, ',;:|'[i % 4], '._~!'[i % 4]) for i in range(24)) +
+     ''.join('<xsl:key name="k%d" match="*" use="count(*) + %d"/>' % (i, i) for i in range(24)) +
+     ''.join('<xsl:attribute-set name="s%d"><xsl:attribute name="a%d">%d</xsl:attribute></xsl:attribute-set>' % (i, i, i) for i in range(24)) +
+     ''.join('<xsl:variable name="g%d" select="%d + count(//*)"/>' % (i, i) for i in range(24)) +
+     '<xsl:template match="/"><out>' +
+     ''.join('<f n="{format-number(1234.5 + %d, \'#%s##0%s0\', \'d%d\')}"/>' % (i, '._~!'[i % 4], ',;:|'[i % 4], i) for i in list(range(24)) + list(range(24))) +
+     ''.join('<k xsl:use-attribute-sets="s%d" c="{count(key(\'k%d\', %d))}" v="{$g%d}"><n%d:e/><xsl:apply-templates select="*" mode="m%d"/><xsl:call-template name="t%d"/></k>' % (i, i, i, i, i, i, i)
+             for i in range(24)) +
+     '</out></xsl:template>' +
+     ''.join('<xsl:template match="*" mode="m%d"><m%d/></xsl:template><xsl:template name="t%d"><t>%d</t></xsl:template>' % (i, i, i, i) for i in range(24)) +
+     '</xsl:stylesheet>'),
 ]
 
 
